@@ -30,6 +30,8 @@ type Prog struct {
 	// anonymous functions (closures) and methods; sorted by position.
 	Funcs []*ssa.Function
 	Files int
+	// Notes: what the loader did besides loading (name normalisation), printed with every report.
+	Notes []string
 
 	fieldWriters map[*types.Var][]Writer
 	callers      map[*ssa.Function][]CallSite
@@ -40,6 +42,34 @@ type Prog struct {
 // builds SSA for all module packages. overlay maps absolute file names to replacement
 // contents (used by the self-test to analyse seeded variants without touching the disk).
 func Load(dir string, overlay map[string][]byte, tags string) (*Prog, error) {
+	pkgs, err := loadPkgs(dir, overlay, tags)
+	if err != nil {
+		return nil, err
+	}
+	var notes []string
+	if ref := LoadRef(); ref != nil && os.Getenv("SA_NO_NORMALIZE") == "" {
+		if renames := inferRenames(ref, DeclTable(pkgs)); len(renames) > 0 {
+			ov2, err := renameOverlay(pkgs, renames, overlay)
+			if err == nil && ov2 != nil {
+				if pkgs2, err2 := loadPkgs(dir, ov2, tags); err2 == nil {
+					pkgs = pkgs2
+					for _, rn := range renames {
+						notes = append(notes, "normalised (inferred rename, old name substituted for the analysis): "+rn.String())
+					}
+				} else {
+					notes = append(notes, "rename normalisation abandoned: "+err2.Error())
+				}
+			}
+		}
+	}
+	p, err := build(dir, pkgs)
+	if p != nil {
+		p.Notes = notes
+	}
+	return p, err
+}
+
+func loadPkgs(dir string, overlay map[string][]byte, tags string) ([]*packages.Package, error) {
 	os.Unsetenv("GOWORK")
 	env := append(os.Environ(), "GOFLAGS=-mod=mod", "GOPROXY=off", "GOWORK=off")
 	cfg := &packages.Config{
@@ -72,6 +102,10 @@ func Load(dir string, overlay map[string][]byte, tags string) (*Prog, error) {
 		}
 		return nil, fmt.Errorf("load: type/parse errors: %s", strings.Join(errs, "; "))
 	}
+	return pkgs, nil
+}
+
+func build(dir string, pkgs []*packages.Package) (*Prog, error) {
 	p := &Prog{RepoDir: dir, Pkgs: pkgs, ByPath: map[string]*packages.Package{}, SSAPkgs: map[string]*ssa.Package{}}
 	for _, pk := range pkgs {
 		p.ByPath[pk.PkgPath] = pk
